@@ -521,6 +521,7 @@ func TestVerifC09Backoff(t *testing.T) {
 		})
 		c09ExpiryPart(r, expired)
 		c09HitsPart(r, expired)
+		c09ExitPart(r, expired)
 	})
 	r.Finish()
 	os.Exit(0)
